@@ -32,7 +32,7 @@ def design_checks(ck, tier):
                                                init_b="{0, 14}", win=3)),
                  ("set/pr-4msg", dict(mode="set", chans="ChansPR", msgs="MsgsTwoCh", init_a="{14}", init_b="{0}", win=3))]
     for label, kw in runs:
-        res = sc.tlc_mc(ck, label.replace("/", "_").replace("+", "_"), timeout=1500 if tier == "thorough" else 300, **kw)
+        res = sc.tlc_mc(ck, label.replace("/", "_").replace("+", "_"), timeout=1800 if tier == "thorough" else 900, **kw)
         vlib.tlc_ok(res, label)
         ck.add_tlc(res, label)
 
